@@ -236,6 +236,18 @@ func StripAttributes(node *html.Node) {
 		finalAttrs := []html.Attribute{}
 		_, elementAllowedToHaveSize := elementWithSizeAttr[tagName]
 
+		// An inline element that its style displays as a block (<span style="display:block">)
+		// is an inline element again once the style is gone, and the words before and
+		// after it would run into the words inside it. White space keeps them apart.
+		if getDefaultDisplayStyle(tagName) == "inline" && elem.Parent != nil {
+			switch getInlineStyleValue(dom.GetAttribute(elem, "style"), "display") {
+			case "", "inline", "none", "contents":
+			default:
+				elem.Parent.InsertBefore(dom.CreateTextNode(" "), elem)
+				elem.Parent.InsertBefore(dom.CreateTextNode(" "), elem.NextSibling)
+			}
+		}
+
 		for _, attr := range elem.Attr {
 			// Exclude identification and presentational attributes.
 			switch attr.Key {
@@ -624,8 +636,12 @@ func GetDisplayStyle(node *html.Node) string {
 		return display
 	}
 
-	// Use default display
-	switch dom.TagName(node) {
+	return getDefaultDisplayStyle(dom.TagName(node))
+}
+
+// getDefaultDisplayStyle returns the "display" that elements with the specified tag name have by default.
+func getDefaultDisplayStyle(tagName string) string {
+	switch tagName {
 	case "address", "article", "blockquote", "body", "dd", "details", "dialog", "div",
 		"dl", "dt", "fieldset", "figcaption", "figure", "footer", "form", "h1", "h2",
 		"h3", "h4", "h5", "h6", "header", "hr", "html", "legend", "main", "nav", "ol",
